@@ -9,6 +9,10 @@ package modbus
 
 //@ func (*PDU).RespReadRegs
 //@   props C19
+//@   local p *modbus.PDU#1
+//@   local count byte#1
+//@   local ret []uint16#1
+//@   local i int#1
 //@   mode bv
 //@   requires p != nil
 //@   ensures [C19] err == nil ==> len(res0) == int(p.Data[0]/2) && 1+2*len(res0) <= len(p.Data)
@@ -35,6 +39,8 @@ package modbus
 
 //@ func PutUint16Array
 //@   props C19
+//@   local value []uint16#1
+//@   local data []byte#1
 //@   fresh
 //@   ensures [C19] len(result) == 2*len(value)
 //@   ensures [C19] forall k int :: 0 <= k && k < len(value) ==> be16(result, 2*k) == value[k]
@@ -49,6 +55,8 @@ package modbus
 
 //@ func Uint16Array
 //@   props C19
+//@   local data []byte#1
+//@   local ret []uint16#1
 //@   ensures [C19] len(result) == len(data)/2
 //@   ensures [C19] forall k int :: 0 <= k && k < len(result) ==> result[k] == be16(data, 2*k)
 //@   loop 1:
@@ -60,6 +68,8 @@ package modbus
 
 //@ func RegsToInt16
 //@   props C19
+//@   local in []uint16#1
+//@   local ret []int16#1
 //@   mode bv
 //@   ensures [C19] len(result) == len(in)
 //@   ensures [C19] forall k int :: 0 <= k && k < len(in) ==> result[k] == int16(in[k])
@@ -72,6 +82,8 @@ package modbus
 
 //@ func RegsToUint32
 //@   props C19
+//@   local in []uint16#1
+//@   local ret []uint32#1
 //@   mode bv
 //@   ensures [C19] len(result) == len(in)/2
 //@   ensures [C19] forall k int :: 0 <= k && k < len(result) ==> result[k] == u32of(in[2*k], in[2*k+1])
@@ -84,6 +96,8 @@ package modbus
 
 //@ func RegsToUint32SwapWords
 //@   props C19
+//@   local in []uint16#1
+//@   local ret []uint32#1
 //@   mode bv
 //@   ensures [C19] len(result) == len(in)/2
 //@   ensures [C19] forall k int :: 0 <= k && k < len(result) ==> result[k] == u32of(in[2*k+1], in[2*k])
@@ -96,6 +110,8 @@ package modbus
 
 //@ func RegsToInt32
 //@   props C19
+//@   local in []uint16#1
+//@   local ret []int32#1
 //@   mode bv
 //@   ensures [C19] len(result) == len(in)/2
 //@   ensures [C19] forall k int :: 0 <= k && k < len(result) ==> result[k] == int32(u32of(in[2*k], in[2*k+1]))
@@ -108,6 +124,8 @@ package modbus
 
 //@ func RegsToInt32SwapWords
 //@   props C19
+//@   local in []uint16#1
+//@   local ret []int32#1
 //@   mode bv
 //@   ensures [C19] len(result) == len(in)/2
 //@   ensures [C19] forall k int :: 0 <= k && k < len(result) ==> result[k] == int32(u32of(in[2*k+1], in[2*k]))
@@ -120,6 +138,8 @@ package modbus
 
 //@ func RegsToFloat32
 //@   props C19
+//@   local in []uint16#1
+//@   local ret []float32#1
 //@   mode bv
 //@   ensures [C19] len(result) == len(in)/2
 //@   ensures [C19] forall k int :: 0 <= k && k < len(result) ==> bits32(result[k]) == u32of(in[2*k], in[2*k+1])
@@ -132,6 +152,8 @@ package modbus
 
 //@ func RegsToFloat32SwapWords
 //@   props C19
+//@   local in []uint16#1
+//@   local ret []float32#1
 //@   mode bv
 //@   ensures [C19] len(result) == len(in)/2
 //@   ensures [C19] forall k int :: 0 <= k && k < len(result) ==> bits32(result[k]) == u32of(in[2*k+1], in[2*k])
@@ -144,6 +166,8 @@ package modbus
 
 //@ func Uint32ToRegs
 //@   props C19
+//@   local in []uint32#1
+//@   local ret []uint16#1
 //@   mode bv
 //@   ensures [C19] len(result) == 2*len(in)
 //@   ensures [C19] forall k int :: 0 <= k && k < len(in) ==> result[2*k] == hi16(in[k]) && result[2*k+1] == lo16(in[k])
@@ -156,6 +180,8 @@ package modbus
 
 //@ func Uint32ToRegsSwapRegs
 //@   props C19
+//@   local in []uint32#1
+//@   local ret []uint16#1
 //@   mode bv
 //@   ensures [C19] len(result) == 2*len(in)
 //@   ensures [C19] forall k int :: 0 <= k && k < len(in) ==> result[2*k] == lo16(in[k]) && result[2*k+1] == hi16(in[k])
@@ -168,6 +194,8 @@ package modbus
 
 //@ func Int32ToRegs
 //@   props C19
+//@   local in []int32#1
+//@   local ret []uint16#1
 //@   mode bv
 //@   ensures [C19] len(result) == 2*len(in)
 //@   ensures [C19] forall k int :: 0 <= k && k < len(in) ==> result[2*k] == hi16(uint32(in[k])) && result[2*k+1] == lo16(uint32(in[k]))
@@ -180,6 +208,8 @@ package modbus
 
 //@ func Int32ToRegsSwapWords
 //@   props C19
+//@   local in []int32#1
+//@   local ret []uint16#1
 //@   mode bv
 //@   ensures [C19] len(result) == 2*len(in)
 //@   ensures [C19] forall k int :: 0 <= k && k < len(in) ==> result[2*k] == lo16(uint32(in[k])) && result[2*k+1] == hi16(uint32(in[k]))
@@ -192,6 +222,8 @@ package modbus
 
 //@ func Float32ToRegs
 //@   props C19
+//@   local in []float32#1
+//@   local ret []uint16#1
 //@   mode bv
 //@   ensures [C19] len(result) == 2*len(in)
 //@   ensures [C19] forall k int :: 0 <= k && k < len(in) ==> result[2*k] == hi16(bits32(in[k])) && result[2*k+1] == lo16(bits32(in[k]))
@@ -204,6 +236,8 @@ package modbus
 
 //@ func Float32ToRegsSwapWords
 //@   props C19
+//@   local in []float32#1
+//@   local ret []uint16#1
 //@   mode bv
 //@   ensures [C19] len(result) == 2*len(in)
 //@   ensures [C19] forall k int :: 0 <= k && k < len(in) ==> result[2*k] == lo16(bits32(in[k])) && result[2*k+1] == hi16(bits32(in[k]))
@@ -247,6 +281,8 @@ package modbus
 
 //@ func (*Regs).readReg
 //@   props C18
+//@   local r *modbus.Regs#1
+//@   local address int#1
 //@   requires r != nil
 //@   ensures [C18] err == nil ==> hasReg(r, address) && res0 == regVal(r, address)
 //@   ensures [C18] err != nil ==> err == ExcIllegalAddress && !hasReg(r, address) && res0 == 0
@@ -258,18 +294,26 @@ package modbus
 
 //@ func (*Regs).ReadReg
 //@   props C18
+//@   local r *modbus.Regs#1
+//@   local address int#1
+//@   local err error#1
 //@   requires r != nil
 //@   ensures [C18] err == nil ==> hasReg(r, address) && res0 == regVal(r, address)
 //@   ensures [C18] err != nil ==> err == ExcIllegalAddress && !hasReg(r, address)
 
 //@ func (*Regs).ReadInputReg
 //@   props C18
+//@   local r *modbus.Regs#1
+//@   local address int#1
 //@   requires r != nil
 //@   ensures [C18] err == nil ==> hasReg(r, address) && res0 == regVal(r, address)
 //@   ensures [C18] err != nil ==> err == ExcIllegalAddress && !hasReg(r, address)
 
 //@ func (*Regs).writeReg
 //@   props C18
+//@   local r *modbus.Regs#1
+//@   local address int#1
+//@   local value uint16#1
 //@   requires r != nil
 //@   modifies r.regs
 //@   ensures [C18] regsFrame(r)
@@ -286,6 +330,9 @@ package modbus
 
 //@ func (*Regs).WriteReg
 //@   props C18
+//@   local r *modbus.Regs#1
+//@   local address int#1
+//@   local value uint16#1
 //@   requires r != nil
 //@   modifies r.regs
 //@   ensures [C18] regsFrame(r)
@@ -295,12 +342,17 @@ package modbus
 
 //@ func (*Regs).ReadCoil
 //@   props C18
+//@   local r *modbus.Regs#1
+//@   local num int#1
+//@   local err error#1
 //@   requires r != nil && num >= 0
 //@   ensures [C18] err == nil ==> hasCoil(r, num) && res0 == coilVal(r, num)
 //@   ensures [C18] err != nil ==> err == ExcIllegalAddress && !hasCoil(r, num)
 
 //@ func (*Regs).ReadDiscreteInput
 //@   props C18
+//@   local r *modbus.Regs#1
+//@   local num int#1
 //@   requires r != nil && num >= 0
 //@   ensures [C18] err == nil ==> hasCoil(r, num) && res0 == coilVal(r, num)
 //@   ensures [C18] err != nil ==> err == ExcIllegalAddress && !hasCoil(r, num)
@@ -311,6 +363,10 @@ package modbus
 
 //@ func (*Regs).WriteCoil
 //@   props C18
+//@   local r *modbus.Regs#1
+//@   local num int#1
+//@   local value bool#1
+//@   local err error#1
 //@   requires r != nil && num >= 0
 //@   modifies r.regs
 //@   ensures [C18] regsFrame(r) && coilsFrame(r)
@@ -339,6 +395,8 @@ package modbus
 
 //@ func (*PDU).handleError
 //@   props C18
+//@   local p *modbus.PDU#1
+//@   local err error#1
 //@   requires p != nil
 //@   ensures [C18] !res0 && res2 == nil && res1.FunctionCode == p.FunctionCode | 0x80 && len(res1.Data) == 1
 //@   ensures [C18] typeIs(err, ExceptionCode) ==> res1.Data[0] == byte(dyn(err, ExceptionCode))
@@ -347,6 +405,16 @@ package modbus
 
 //@ func (*PDU).ProcessRequest
 //@   props C18
+//@   local p *modbus.PDU#1
+//@   local regs modbus.RegProvider#1
+//@   local regsChanged bool#1
+//@   local resp modbus.PDU#1
+//@   local address uint16#1
+//@   local count uint16#2
+//@   local bytes byte#1
+//@   local i int#2
+//@   local err error#1
+//@   local quantity uint16#9
 //@   dispatch RegProvider *Regs
 //@   requires p != nil && typeIs(regs, *Regs) && RG(regs) != nil
 //@   modifies RG(regs).regs
@@ -420,6 +488,8 @@ package modbus
 
 //@ func RtuCrc
 //@   props C19
+//@   local buf []byte#1
+//@   local i int#1
 //@   mode bv
 //@   assume-ensures result == crcOf(buf)
 //@   loop 1:
@@ -433,10 +503,13 @@ package modbus
 
 //@ func CheckRtuCrc
 //@   props C19
+//@   local packet []byte#1
 //@   ensures [C19] res0 == nil <==> crcOK(packet)
 
 //@ func (*RTU).Encode
 //@   props C19
+//@   local id byte#1
+//@   local pdu modbus.PDU#1
 //@   ensures [C19] res1 == nil && len(res0) == len(pdu.Data)+4 && isfresh(res0)
 //@   ensures [C19] res0[0] == id && res0[1] == byte(pdu.FunctionCode)
 //@   ensures [C19] forall k int :: 0 <= k && k < len(pdu.Data) ==> res0[2+k] == pdu.Data[k]
@@ -444,11 +517,15 @@ package modbus
 
 //@ func (*RTU).Decode
 //@   props C19
+//@   local packet []byte#1
 //@   ensures [C19] res2 == nil <==> crcOK(packet)
 //@   ensures [C19] res2 == nil ==> res0 == packet[0] && res1.FunctionCode == FunctionCode(packet[1]) && sameSlice(res1.Data, packet[2:len(packet)-2])
 
 //@ func (*TCP).Encode
 //@   props C19
+//@   local t *modbus.TCP#1
+//@   local id byte#1
+//@   local pdu modbus.PDU#1
 //@   requires t != nil
 //@   modifies t
 //@   ensures [C19] res1 == nil && len(res0) == len(pdu.Data)+8 && isfresh(res0)
@@ -460,6 +537,8 @@ package modbus
 
 //@ func (*TCP).Decode
 //@   props C19
+//@   local t *modbus.TCP#1
+//@   local packet []byte#1
 //@   requires t != nil
 //@   modifies t
 //@   ensures [C19] res2 == nil <==> old(tcpAccepts(t, packet))
@@ -469,11 +548,17 @@ package modbus
 
 //@ func verifRtuRoundTrip
 //@   props C19
+//@   local id byte#1
+//@   local pdu modbus.PDU#1
 //@   requires len(pdu.Data) <= 252
 //@   ensures [C19] rtu-roundtrip: res2 == nil && res0 == id && res1.FunctionCode == pdu.FunctionCode && res1.Data == pdu.Data
 
 //@ func verifTCPRoundTrip
 //@   props C19
+//@   local cl *modbus.TCP#1
+//@   local srv *modbus.TCP#2
+//@   local id byte#1
+//@   local pdu modbus.PDU#1
 //@   requires cl != nil && srv != nil && cl != srv && cl.clientServer == TransportClient && srv.clientServer == TransportServer && 1 <= len(pdu.Data) && len(pdu.Data) <= 252
 //@   modifies cl, srv
 //@   ensures [C19] tcp-roundtrip: res2 == nil && res0 == id && res1.FunctionCode == pdu.FunctionCode && res1.Data == pdu.Data && srv.txID == cl.txID
@@ -484,31 +569,49 @@ package modbus
 
 //@ func ReadDiscreteInputs
 //@   props C19
+//@   local address uint16#1
+//@   local count uint16#2
 //@   fresh result.Data
 //@   ensures [C19] isReq(result, FuncCodeReadDiscreteInputs, address, count)
 //@ func ReadCoils
 //@   props C19
+//@   local address uint16#1
+//@   local count uint16#2
 //@   fresh result.Data
 //@   ensures [C19] isReq(result, FuncCodeReadCoils, address, count)
 //@ func WriteSingleCoil
 //@   props C19
+//@   local address uint16#1
+//@   local v bool#1
 //@   fresh result.Data
 //@   ensures [C19] isReq(result, FuncCodeWriteSingleCoil, address, ite(v, 0xFF00, 0))
 //@ func WriteSingleReg
 //@   props C19
+//@   local address uint16#1
+//@   local value uint16#2
 //@   fresh result.Data
 //@   ensures [C19] isReq(result, FuncCodeWriteSingleRegister, address, value)
 //@ func ReadHoldingRegs
 //@   props C19
+//@   local address uint16#1
+//@   local count uint16#2
 //@   fresh result.Data
 //@   ensures [C19] isReq(result, FuncCodeReadHoldingRegisters, address, count)
 //@ func ReadInputRegs
 //@   props C19
+//@   local address uint16#1
+//@   local count uint16#2
 //@   fresh result.Data
 //@   ensures [C19] isReq(result, FuncCodeReadInputRegisters, address, count)
 
 //@ func (*PDU).RespReadBits
 //@   props C19
+//@   local p *modbus.PDU#1
+//@   local count byte#1
+//@   local ret []bool#1
+//@   local byteIndex int#1
+//@   local bitIndex uint#1
+//@   local i byte#2
 //@   requires p != nil
 //@   ensures [C19] res1 == nil ==> len(res0) == int(p.Data[0])
 //@   loop 1:
@@ -519,6 +622,10 @@ package modbus
 
 //@ func (*PDU).RespReadBitsCount
 //@   props C19
+//@   local p *modbus.PDU#1
+//@   local count uint16#1
+//@   local ret []bool#1
+//@   local i int#2
 //@   requires p != nil
 //@   ensures [C19] res1 == nil ==> len(res0) == int(count) && int(p.Data[0]) == fdiv(int(count)+7, 8) && len(p.Data) == 1 + fdiv(int(count)+7, 8) && (p.FunctionCode == FuncCodeReadCoils || p.FunctionCode == FuncCodeReadDiscreteInputs)
 //@   ensures [C19] res1 == nil ==> (forall j int :: 0 <= j && j < int(count) ==> res0[j] == bit8(p.Data[1+fdiv(j, 8)], fmod(j, 8)))
@@ -559,6 +666,8 @@ package modbus
 
 //@ func (*Client).ReadCoils
 //@   props C19
+//@   local c *modbus.Client#1
+//@   local count uint16#2
 //@   requires c != nil && !failed(c.transport)
 //@   modifies c.transport
 //@   ensures [C19] res1 == nil ==> len(res0) == int(count) && lastRx(c.transport).FunctionCode == FuncCodeReadCoils && len(lastRx(c.transport).Data) == 1 + fdiv(int(count)+7, 8)
@@ -567,6 +676,8 @@ package modbus
 
 //@ func (*Client).ReadDiscreteInputs
 //@   props C19
+//@   local c *modbus.Client#1
+//@   local count uint16#2
 //@   requires c != nil && !failed(c.transport)
 //@   modifies c.transport
 //@   ensures [C19] res1 == nil ==> len(res0) == int(count) && lastRx(c.transport).FunctionCode == FuncCodeReadDiscreteInputs && len(lastRx(c.transport).Data) == 1 + fdiv(int(count)+7, 8)
@@ -575,6 +686,8 @@ package modbus
 
 //@ func (*Client).ReadHoldingRegs
 //@   props C19
+//@   local c *modbus.Client#1
+//@   local count uint16#2
 //@   requires c != nil && !failed(c.transport)
 //@   modifies c.transport
 //@   ensures [C19] res1 == nil ==> len(res0) == int(count) && lastRx(c.transport).FunctionCode == FuncCodeReadHoldingRegisters
@@ -583,6 +696,8 @@ package modbus
 
 //@ func (*Client).ReadInputRegs
 //@   props C19
+//@   local c *modbus.Client#1
+//@   local count uint16#2
 //@   requires c != nil && !failed(c.transport)
 //@   modifies c.transport
 //@   ensures [C19] res1 == nil ==> len(res0) == int(count) && lastRx(c.transport).FunctionCode == FuncCodeReadInputRegisters
@@ -591,6 +706,9 @@ package modbus
 
 //@ func (*Client).WriteSingleCoil
 //@   props C19
+//@   local c *modbus.Client#1
+//@   local coil uint16#1
+//@   local v bool#1
 //@   requires c != nil && !failed(c.transport)
 //@   modifies c.transport
 //@   ensures [C19] res0 == nil ==> isReq(lastRx(c.transport), FuncCodeWriteSingleCoil, coil, ite(v, 0xFF00, 0))
@@ -598,6 +716,9 @@ package modbus
 
 //@ func (*Client).WriteSingleReg
 //@   props C19
+//@   local c *modbus.Client#1
+//@   local reg uint16#1
+//@   local value uint16#2
 //@   requires c != nil && !failed(c.transport)
 //@   modifies c.transport
 //@   ensures [C19] res0 == nil ==> isReq(lastRx(c.transport), FuncCodeWriteSingleRegister, reg, value)
@@ -607,6 +728,9 @@ package modbus
 
 //@ func verifServeReadRegs
 //@   props C19
+//@   local regs modbus.RegProvider#1
+//@   local reg uint16#1
+//@   local count uint16#2
 //@   requires typeIs(regs, *Regs) && RG(regs) != nil
 //@   modifies RG(regs).regs
 //@   ensures [C19] serve-readregs-values: res1 == nil ==> len(res0) == int(count) && (forall g int :: int(reg) <= g && g < int(reg)+int(count) ==> res0[g-int(reg)] == regVal(RG(regs), g))
@@ -615,6 +739,9 @@ package modbus
 
 //@ func verifServeReadCoils
 //@   props C19
+//@   local regs modbus.RegProvider#1
+//@   local coil uint16#1
+//@   local count uint16#2
 //@   requires typeIs(regs, *Regs) && RG(regs) != nil
 //@   modifies RG(regs).regs
 //@   ensures [C19] serve-readcoils-values: res1 == nil ==> len(res0) == int(count) && (forall c int :: int(coil) <= c && c < int(coil)+int(count) ==> res0[c-int(coil)] == coilVal(RG(regs), c))
@@ -623,6 +750,9 @@ package modbus
 
 //@ func verifServeWriteReg
 //@   props C19
+//@   local regs modbus.RegProvider#1
+//@   local reg uint16#1
+//@   local value uint16#2
 //@   requires typeIs(regs, *Regs) && RG(regs) != nil
 //@   modifies RG(regs).regs
 //@   ensures [C19] serve-writereg-effect: res0 == nil ==> regVal(RG(regs), int(reg)) == value && valsSameExcept(RG(regs), int(reg)) && regsFrame(RG(regs))
@@ -631,6 +761,9 @@ package modbus
 
 //@ func verifServeWriteCoil
 //@   props C19
+//@   local regs modbus.RegProvider#1
+//@   local coil uint16#1
+//@   local v bool#1
 //@   requires typeIs(regs, *Regs) && RG(regs) != nil
 //@   modifies RG(regs).regs
 //@   ensures [C19] serve-writecoil-effect: res0 == nil ==> coilVal(RG(regs), int(coil)) == v && coilsSameExcept(RG(regs), int(coil)) && coilsFrame(RG(regs))
